@@ -3,15 +3,17 @@ import EgglogVerif.Props.C12
 C12 — the rule layer of the proof checker: "the checker accepts a proof only if each step is
 justified by that program".
 
-`Derivable rules terms leaf` is the least set of propositions that contains the leaf propositions
-and is closed under symmetry, transitivity, congruence and the RULES OF THE CHECKING PROGRAM (a rule
+`Derivable prog terms leaf` is the least set of propositions that contains the leaf propositions
+(MergeFn steps), `t = t` for literals, the propositions of the program's TOP-LEVEL ACTIONS, and is
+closed under symmetry, transitivity, congruence and the RULES OF THE CHECKING PROGRAM (a rule
 instance whose body facts are all derivable yields its head propositions).  `C12_rule_sound`: a
-proof the checker accepts against `rules` proves only derivable propositions — for every closed
+proof the checker accepts against `prog` proves only derivable propositions — for every closed
 set `D`, hence for the least one (`C12_accepted_derivable`).  Consequently
-(`C12_altered_program_rejected`) the same proof checked against an altered program whose rules no
-longer derive its conclusion is rejected; `C12_rule_missing_rejected`, `C12_rule_premise_count`
-and `C12_rule_fact_checked` are the single-point forms: a removed rule, a rule that gained or lost
-a body fact, a premise that does not match its body fact.
+(`C12_altered_program_rejected`) the same proof checked against an altered program that no
+longer derives its conclusion is rejected; `C12_rule_missing_rejected`, `C12_rule_premise_count`,
+`C12_rule_fact_checked` and `C12_fiat_unjustified_rejected` are the single-point forms: a removed
+rule, a rule that gained or lost a body fact, a premise that does not match its body fact, a
+removed or altered top-level fact.
 -/
 namespace EgglogVerif.ProofCk
 
@@ -30,53 +32,63 @@ def Matches (terms : Array Term) (σ : List (Nat × Nat)) : List RFact → List 
 
 /-- a set of propositions closed under the inference steps the checker knows, for the rules of
 one program -/
-structure Closed (rules : List Rule) (terms : Array Term) (D : Nat → Nat → Prop) : Prop where
+structure Closed (prog : Prog) (terms : Array Term) (D : Nat → Nat → Prop) : Prop where
+  lit : ∀ a t, terms[a]? = some t → t.head ∈ prog.lits → D a a
+  fiatEq : ∀ xy ∈ (runActs terms [] prog.globals).eqs, D xy.1 xy.2
+  fiatRefl : ∀ x ∈ (runActs terms [] prog.globals).roots, ∀ y, Reach terms x y → D y y
   sym : ∀ a b, D a b → D b a
   trans : ∀ a b c, D a b → D b c → D a c
   congr : ∀ l t t' c c' i tt, D l t → D c c' → terms[t]? = some tt → tt.kids[i]? = some c →
     terms[t']? = some ⟨tt.head, tt.kids.set i c'⟩ → D l t'
-  ruleEq : ∀ rl ∈ rules, ∀ σ prems, (∀ p ∈ prems, D p.1 p.2) → Matches terms σ rl.body prems →
-    ∀ ab ∈ headEqs rl.head, ∀ x y, instId terms σ ab.1 = some x → instId terms σ ab.2 = some y → D x y
-  ruleRefl : ∀ rl ∈ rules, ∀ σ prems, (∀ p ∈ prems, D p.1 p.2) → Matches terms σ rl.body prems →
-    ∀ e ∈ headExprs rl.head, ∀ x y, instId terms σ e = some x → Reach terms x y → D y y
+  ruleEq : ∀ rl ∈ prog.rules, ∀ σ prems, (∀ p ∈ prems, D p.1 p.2) → Matches terms σ rl.body prems →
+    ∀ xy ∈ (runActs terms σ rl.head).eqs, D xy.1 xy.2
+  ruleRefl : ∀ rl ∈ prog.rules, ∀ σ prems, (∀ p ∈ prems, D p.1 p.2) → Matches terms σ rl.body prems →
+    ∀ x ∈ (runActs terms σ rl.head).roots, ∀ y, Reach terms x y → D y y
 
 /-- what the program derives from the leaf propositions -/
-inductive Derivable (rules : List Rule) (terms : Array Term) (leaf : Nat → Nat → Prop) : Nat → Nat → Prop
-  | leaf {a b} : leaf a b → Derivable rules terms leaf a b
-  | sym {a b} : Derivable rules terms leaf a b → Derivable rules terms leaf b a
-  | trans {a b c} : Derivable rules terms leaf a b → Derivable rules terms leaf b c → Derivable rules terms leaf a c
-  | congr {l t t' c c' i tt} : Derivable rules terms leaf l t → Derivable rules terms leaf c c' →
+inductive Derivable (prog : Prog) (terms : Array Term) (leaf : Nat → Nat → Prop) : Nat → Nat → Prop
+  | leaf {a b} : leaf a b → Derivable prog terms leaf a b
+  | lit {a t} : terms[a]? = some t → t.head ∈ prog.lits → Derivable prog terms leaf a a
+  | fiatEq {xy : Nat × Nat} : xy ∈ (runActs terms [] prog.globals).eqs → Derivable prog terms leaf xy.1 xy.2
+  | fiatRefl {x y} : x ∈ (runActs terms [] prog.globals).roots → Reach terms x y → Derivable prog terms leaf y y
+  | sym {a b} : Derivable prog terms leaf a b → Derivable prog terms leaf b a
+  | trans {a b c} : Derivable prog terms leaf a b → Derivable prog terms leaf b c → Derivable prog terms leaf a c
+  | congr {l t t' c c' i tt} : Derivable prog terms leaf l t → Derivable prog terms leaf c c' →
       terms[t]? = some tt → tt.kids[i]? = some c → terms[t']? = some ⟨tt.head, tt.kids.set i c'⟩ →
-      Derivable rules terms leaf l t'
-  | ruleEq {rl σ} {prems : List (Nat × Nat)} {ab : Pat × Pat} {x y} : rl ∈ rules →
-      (∀ p ∈ prems, Derivable rules terms leaf p.1 p.2) → Matches terms σ rl.body prems →
-      ab ∈ headEqs rl.head → instId terms σ ab.1 = some x → instId terms σ ab.2 = some y →
-      Derivable rules terms leaf x y
-  | ruleRefl {rl σ} {prems : List (Nat × Nat)} {e : Pat} {x y} : rl ∈ rules →
-      (∀ p ∈ prems, Derivable rules terms leaf p.1 p.2) → Matches terms σ rl.body prems →
-      e ∈ headExprs rl.head → instId terms σ e = some x → Reach terms x y →
-      Derivable rules terms leaf y y
+      Derivable prog terms leaf l t'
+  | ruleEq {rl σ} {prems : List (Nat × Nat)} {xy : Nat × Nat} : rl ∈ prog.rules →
+      (∀ p ∈ prems, Derivable prog terms leaf p.1 p.2) → Matches terms σ rl.body prems →
+      xy ∈ (runActs terms σ rl.head).eqs → Derivable prog terms leaf xy.1 xy.2
+  | ruleRefl {rl σ} {prems : List (Nat × Nat)} {x y} : rl ∈ prog.rules →
+      (∀ p ∈ prems, Derivable prog terms leaf p.1 p.2) → Matches terms σ rl.body prems →
+      x ∈ (runActs terms σ rl.head).roots → Reach terms x y → Derivable prog terms leaf y y
 
-theorem Derivable.closed (rules : List Rule) (terms : Array Term) (leaf : Nat → Nat → Prop) :
-    Closed rules terms (Derivable rules terms leaf) where
+theorem Derivable.closed (prog : Prog) (terms : Array Term) (leaf : Nat → Nat → Prop) :
+    Closed prog terms (Derivable prog terms leaf) where
+  lit := fun _ _ h1 h2 => .lit h1 h2
+  fiatEq := fun _ h => .fiatEq h
+  fiatRefl := fun _ hx _ hr => .fiatRefl hx hr
   sym := fun _ _ h => .sym h
   trans := fun _ _ _ h1 h2 => .trans h1 h2
   congr := fun _ _ _ _ _ _ _ h1 h2 h3 h4 h5 => .congr h1 h2 h3 h4 h5
-  ruleEq := fun _ hrl _ _ hp hm _ hab _ _ hx hy => .ruleEq hrl hp hm hab hx hy
-  ruleRefl := fun _ hrl _ _ hp hm _ he _ _ hx hr => .ruleRefl hrl hp hm he hx hr
+  ruleEq := fun _ hrl _ _ hp hm _ hxy => .ruleEq hrl hp hm hxy
+  ruleRefl := fun _ hrl _ _ hp hm _ hx _ hr => .ruleRefl hrl hp hm hx hr
 
 /-- the least closed set: `Derivable` is below every closed set that contains the leaves -/
-theorem Derivable.least {rules : List Rule} {terms : Array Term} {leaf D : Nat → Nat → Prop}
-    (hD : Closed rules terms D) (hl : ∀ a b, leaf a b → D a b) :
-    ∀ {a b}, Derivable rules terms leaf a b → D a b := by
+theorem Derivable.least {prog : Prog} {terms : Array Term} {leaf D : Nat → Nat → Prop}
+    (hD : Closed prog terms D) (hl : ∀ a b, leaf a b → D a b) :
+    ∀ {a b}, Derivable prog terms leaf a b → D a b := by
   intro a b h
   induction h with
   | leaf h => exact hl _ _ h
+  | lit h1 h2 => exact hD.lit _ _ h1 h2
+  | fiatEq h => exact hD.fiatEq _ h
+  | fiatRefl hx hr => exact hD.fiatRefl _ hx _ hr
   | sym _ ih => exact hD.sym _ _ ih
   | trans _ _ ih1 ih2 => exact hD.trans _ _ _ ih1 ih2
   | congr _ _ h3 h4 h5 ih1 ih2 => exact hD.congr _ _ _ _ _ _ _ ih1 ih2 h3 h4 h5
-  | ruleEq hrl _ hm hab hx hy ih => exact hD.ruleEq _ hrl _ _ ih hm _ hab _ _ hx hy
-  | ruleRefl hrl _ hm he hx hr ih => exact hD.ruleRefl _ hrl _ _ ih hm _ he _ _ hx hr
+  | ruleEq hrl _ hm hxy ih => exact hD.ruleEq _ hrl _ _ ih hm _ hxy
+  | ruleRefl hrl _ hm hx hr ih => exact hD.ruleRefl _ hrl _ _ ih hm _ hx _ hr
 
 /-! ### the computable pieces against their specifications -/
 
@@ -145,38 +157,54 @@ theorem factsOk_length (terms : Array Term) (σ : List (Nat × Nat)) (prev : Lis
       simp only [factsOk, Bool.and_eq_true] at h
       simp [ih ps h.2]
 
+/-- an accepted claim is one of the equalities, or `t = t` for a subterm of an evaluated expression -/
+theorem propsOk_spec {terms : Array Term} {out : ActOut} {l r : Nat} (h : propsOk terms out l r = true) :
+    (l, r) ∈ out.eqs ∨ (l = r ∧ ∃ x ∈ out.roots, Reach terms x l) := by
+  unfold propsOk at h
+  simp only [Bool.or_eq_true, List.contains_iff_mem, Bool.and_eq_true, beq_iff_eq, List.any_eq_true] at h
+  rcases h with h | ⟨hlr, x, hx, hreach⟩
+  · exact .inl h
+  · exact .inr ⟨hlr, x, hx, reach_sound terms _ _ _ hreach⟩
+
 /-- one accepted step, relative to any closed set that already contains the earlier steps -/
-theorem stepOk_closed {rules : List Rule} {terms : Array Term} {D : Nat → Nat → Prop}
-    (hD : Closed rules terms D) {prev : List Step} (hprev : ∀ s ∈ prev, D s.lhs s.rhs) {s : Step}
-    (hleaf : s.just = .leaf → D s.lhs s.rhs) (hok : stepOk rules terms prev s = true) : D s.lhs s.rhs := by
+theorem stepOk_closed {prog : Prog} {terms : Array Term} {D : Nat → Nat → Prop}
+    (hD : Closed prog terms D) {prev : List Step} (hprev : ∀ s ∈ prev, D s.lhs s.rhs) {s : Step}
+    (hleaf : s.just = .leaf → D s.lhs s.rhs) (hok : stepOk prog terms prev s = true) : D s.lhs s.rhs := by
   unfold stepOk at hok
   cases hj : s.just with
   | leaf => exact hleaf hj
+  | fiat =>
+    rw [hj] at hok
+    simp only [Bool.or_eq_true, Bool.and_eq_true, beq_iff_eq] at hok
+    rcases hok with ⟨hlr, hlit⟩ | hp
+    · unfold isLit at hlit
+      cases ht : terms[s.lhs]? with
+      | none => rw [ht] at hlit; simp at hlit
+      | some t =>
+        rw [ht] at hlit
+        simp only [List.contains_iff_mem] at hlit
+        rw [← hlr]; exact hD.lit _ _ ht hlit
+    · rcases propsOk_spec hp with h | ⟨hlr, x, hx, hreach⟩
+      · exact hD.fiatEq _ h
+      · rw [← hlr]; exact hD.fiatRefl x hx _ hreach
   | rule r ps σ =>
     rw [hj] at hok
     simp only at hok
-    cases hr : rules[r]? with
+    cases hr : prog.rules[r]? with
     | none => rw [hr] at hok; simp at hok
     | some rl =>
       rw [hr] at hok
       simp only [Bool.and_eq_true] at hok
       obtain ⟨hfacts, hhead⟩ := hok
-      have hmem : rl ∈ rules := List.mem_of_getElem? hr
-      obtain ⟨prems, _, hall, hm⟩ := factsOk_matches terms σ prev rl.body ps hfacts
+      have hmem : rl ∈ prog.rules := List.mem_of_getElem? hr
+      obtain ⟨prems, _, hall, hm⟩ := factsOk_matches terms _ prev rl.body ps hfacts
       have hprems : ∀ p ∈ prems, D p.1 p.2 := by
         intro p hp
         obtain ⟨sp, hsp, rfl⟩ := hall p hp
         exact hprev sp hsp
-      unfold headOk at hhead
-      simp only [Bool.or_eq_true, List.any_eq_true, Bool.and_eq_true, beq_iff_eq] at hhead
-      rcases hhead with ⟨ab, hab, hx, hy⟩ | ⟨hlr, e, he, hreach⟩
-      · exact hD.ruleEq rl hmem σ prems hprems hm ab hab _ _ hx hy
-      · cases hx : instId terms σ e with
-        | none => rw [hx] at hreach; simp at hreach
-        | some x =>
-          rw [hx] at hreach
-          have := hD.ruleRefl rl hmem σ prems hprems hm e he x s.lhs hx (reach_sound terms _ _ _ hreach)
-          rw [← hlr]; exact this
+      rcases propsOk_spec hhead with h | ⟨hlr, x, hx, hreach⟩
+      · exact hD.ruleEq rl hmem _ prems hprems hm _ h
+      · rw [← hlr]; exact hD.ruleRefl rl hmem _ prems hprems hm x hx _ hreach
   | sym p =>
     rw [hj] at hok
     simp only at hok
@@ -234,10 +262,10 @@ theorem stepOk_closed {rules : List Rule} {terms : Array Term} {D : Nat → Nat 
               simp only at h2
               rw [h2, h5]
 
-theorem checkFrom_closed {rules : List Rule} {terms : Array Term} {D : Nat → Nat → Prop}
-    (hD : Closed rules terms D) :
+theorem checkFrom_closed {prog : Prog} {terms : Array Term} {D : Nat → Nat → Prop}
+    (hD : Closed prog terms D) :
     ∀ (steps prev : List Step), (∀ s ∈ prev, D s.lhs s.rhs) →
-      (∀ s ∈ steps, s.just = .leaf → D s.lhs s.rhs) → checkFrom rules terms prev steps = true →
+      (∀ s ∈ steps, s.just = .leaf → D s.lhs s.rhs) → checkFrom prog terms prev steps = true →
       ∀ s ∈ steps, D s.lhs s.rhs := by
   intro steps
   induction steps with
@@ -257,67 +285,67 @@ theorem checkFrom_closed {rules : List Rule} {terms : Array Term} {D : Nat → N
 /-- **Soundness of the checker, rule steps included**: every proposition of a proof accepted
 against the program `rules` lies in every set that contains the leaf propositions and is closed
 under symmetry, transitivity, congruence and the rules of THAT program. -/
-theorem C12_rule_sound (rules : List Rule) (terms : Array Term) (steps : List Step) (D : Nat → Nat → Prop)
-    (hD : Closed rules terms D) (hleaf : ∀ s ∈ steps, s.just = .leaf → D s.lhs s.rhs)
-    (hok : checkProof rules terms steps = true) : ∀ s ∈ steps, D s.lhs s.rhs :=
+theorem C12_rule_sound (prog : Prog) (terms : Array Term) (steps : List Step) (D : Nat → Nat → Prop)
+    (hD : Closed prog terms D) (hleaf : ∀ s ∈ steps, s.just = .leaf → D s.lhs s.rhs)
+    (hok : checkProof prog terms steps = true) : ∀ s ∈ steps, D s.lhs s.rhs :=
   checkFrom_closed hD steps [] (fun s h => by cases h) hleaf hok
 
 /-- … in particular in the least one: an accepted proof proves only what the checking program
 derives from the leaves of the proof. -/
-theorem C12_accepted_derivable (rules : List Rule) (terms : Array Term) (steps : List Step)
-    (hok : checkProof rules terms steps = true) :
-    ∀ s ∈ steps, Derivable rules terms (fun a b => ∃ s ∈ steps, s.just = .leaf ∧ s.lhs = a ∧ s.rhs = b) s.lhs s.rhs :=
-  C12_rule_sound rules terms steps _ (Derivable.closed rules terms _)
+theorem C12_accepted_derivable (prog : Prog) (terms : Array Term) (steps : List Step)
+    (hok : checkProof prog terms steps = true) :
+    ∀ s ∈ steps, Derivable prog terms (fun a b => ∃ s ∈ steps, s.just = .leaf ∧ s.lhs = a ∧ s.rhs = b) s.lhs s.rhs :=
+  C12_rule_sound prog terms steps _ (Derivable.closed prog terms _)
     (fun s hs hj => .leaf ⟨s, hs, hj, rfl, rfl⟩) hok
 
-/-- **Alteration of the checking program**: a proof whose conclusion the altered program `rules'`
-does not derive (from the proof's own leaves) is rejected when checked against `rules'` — whatever
-the alteration was (rule removed, premise added, head changed). -/
-theorem C12_altered_program_rejected (rules' : List Rule) (terms : Array Term) (steps : List Step) (s : Step)
+/-- **Alteration of the checking program**: a proof whose conclusion the altered program `prog'`
+does not derive (from the proof's own leaves) is rejected when checked against `prog'` — whatever
+the alteration was (rule removed, premise added, head changed, top-level fact removed or altered). -/
+theorem C12_altered_program_rejected (prog' : Prog) (terms : Array Term) (steps : List Step) (s : Step)
     (hs : s ∈ steps)
-    (hnot : ¬ Derivable rules' terms (fun a b => ∃ s ∈ steps, s.just = .leaf ∧ s.lhs = a ∧ s.rhs = b) s.lhs s.rhs) :
-    checkProof rules' terms steps = false := by
-  cases h : checkProof rules' terms steps with
+    (hnot : ¬ Derivable prog' terms (fun a b => ∃ s ∈ steps, s.just = .leaf ∧ s.lhs = a ∧ s.rhs = b) s.lhs s.rhs) :
+    checkProof prog' terms steps = false := by
+  cases h : checkProof prog' terms steps with
   | false => rfl
-  | true => exact absurd (C12_accepted_derivable rules' terms steps h s hs) hnot
+  | true => exact absurd (C12_accepted_derivable prog' terms steps h s hs) hnot
 
 /-- a step that names a rule the program does not have is rejected -/
-theorem C12_rule_missing_rejected (rules : List Rule) (terms : Array Term) (prev : List Step) (r : Nat)
-    (ps : List Nat) (σ : List (Nat × Nat)) (l r' : Nat) (h : rules[r]? = none) :
-    stepOk rules terms prev ⟨.rule r ps σ, l, r'⟩ = false := by
+theorem C12_rule_missing_rejected (prog : Prog) (terms : Array Term) (prev : List Step) (r : Nat)
+    (ps : List Nat) (σ : List (Nat × Nat)) (l r' : Nat) (h : prog.rules[r]? = none) :
+    stepOk prog terms prev ⟨.rule r ps σ, l, r'⟩ = false := by
   simp [stepOk, h]
 
 /-- an accepted rule step supplies exactly one premise per body fact of the program's rule: a rule
 that gained a premise (or a proof that dropped one) is rejected -/
-theorem C12_rule_premise_count (rules : List Rule) (terms : Array Term) (prev : List Step) (r : Nat)
+theorem C12_rule_premise_count (prog : Prog) (terms : Array Term) (prev : List Step) (r : Nat)
     (ps : List Nat) (σ : List (Nat × Nat)) (l r' : Nat)
-    (h : stepOk rules terms prev ⟨.rule r ps σ, l, r'⟩ = true) :
-    ∃ rl, rules[r]? = some rl ∧ rl.body.length = ps.length := by
+    (h : stepOk prog terms prev ⟨.rule r ps σ, l, r'⟩ = true) :
+    ∃ rl, prog.rules[r]? = some rl ∧ rl.body.length = ps.length := by
   simp only [stepOk] at h
-  cases hr : rules[r]? with
+  cases hr : prog.rules[r]? with
   | none => rw [hr] at h; simp at h
   | some rl =>
     rw [hr] at h
     simp only [Bool.and_eq_true] at h
-    exact ⟨rl, rfl, factsOk_length terms σ prev rl.body ps h.1⟩
+    exact ⟨rl, rfl, factsOk_length terms _ prev rl.body ps h.1⟩
 
-theorem C12_dropped_premise_rejected (rules : List Rule) (terms : Array Term) (prev : List Step) (r : Nat)
+theorem C12_dropped_premise_rejected (prog : Prog) (terms : Array Term) (prev : List Step) (r : Nat)
     (rl : Rule) (ps : List Nat) (σ : List (Nat × Nat)) (l r' : Nat)
-    (hr : rules[r]? = some rl) (hne : rl.body.length ≠ ps.length) :
-    stepOk rules terms prev ⟨.rule r ps σ, l, r'⟩ = false := by
-  cases h : stepOk rules terms prev ⟨.rule r ps σ, l, r'⟩ with
+    (hr : prog.rules[r]? = some rl) (hne : rl.body.length ≠ ps.length) :
+    stepOk prog terms prev ⟨.rule r ps σ, l, r'⟩ = false := by
+  cases h : stepOk prog terms prev ⟨.rule r ps σ, l, r'⟩ with
   | false => rfl
   | true =>
-    obtain ⟨rl', h1, h2⟩ := C12_rule_premise_count rules terms prev r ps σ l r' h
+    obtain ⟨rl', h1, h2⟩ := C12_rule_premise_count prog terms prev r ps σ l r' h
     rw [hr] at h1; cases h1; exact absurd h2 hne
 
 /-- every body fact of an accepted rule step is matched by the proposition of its own premise -/
-theorem C12_rule_fact_checked (rules : List Rule) (terms : Array Term) (prev : List Step) (r : Nat)
-    (rl : Rule) (ps : List Nat) (σ : List (Nat × Nat)) (l r' : Nat) (hr : rules[r]? = some rl)
-    (h : stepOk rules terms prev ⟨.rule r ps σ, l, r'⟩ = true) (i : Nat) (f : RFact) (p : Nat)
+theorem C12_rule_fact_checked (prog : Prog) (terms : Array Term) (prev : List Step) (r : Nat)
+    (rl : Rule) (ps : List Nat) (σ : List (Nat × Nat)) (l r' : Nat) (hr : prog.rules[r]? = some rl)
+    (h : stepOk prog terms prev ⟨.rule r ps σ, l, r'⟩ = true) (i : Nat) (f : RFact) (p : Nat)
     (hf : rl.body[i]? = some f) (hp : ps[i]? = some p) :
-    ∃ sp, prev[p]? = some sp ∧ (f.anyLhs = true ∨ instId terms σ f.lhs = some sp.lhs) ∧
-      instId terms σ f.rhs = some sp.rhs := by
+    ∃ sp, prev[p]? = some sp ∧ (f.anyLhs = true ∨ instId terms (σ ++ globalσ prog terms) f.lhs = some sp.lhs) ∧
+      instId terms (σ ++ globalσ prog terms) f.rhs = some sp.rhs := by
   simp only [stepOk, hr, Bool.and_eq_true] at h
   have hfacts := h.1
   clear h hr
@@ -345,26 +373,55 @@ theorem C12_rule_fact_checked (rules : List Rule) (terms : Array Term) (prev : L
         simp only [List.getElem?_cons_succ] at hf hp
         exact ih qs j hp hf hfacts.2
 
+/-- a Fiat step is accepted only for a literal's `t = t` or a proposition of the program's
+top-level actions: with the fact removed or altered the step is rejected -/
+theorem C12_fiat_unjustified_rejected (prog : Prog) (terms : Array Term) (prev : List Step) (l r : Nat)
+    (hlit : ¬ (l = r ∧ isLit prog terms l = true))
+    (heq : (l, r) ∉ (runActs terms [] prog.globals).eqs)
+    (hrefl : l = r → ∀ x ∈ (runActs terms [] prog.globals).roots, ¬ Reach terms x l) :
+    stepOk prog terms prev ⟨.fiat, l, r⟩ = false := by
+  cases h : stepOk prog terms prev ⟨.fiat, l, r⟩ with
+  | false => rfl
+  | true =>
+    exfalso
+    simp only [stepOk, Bool.or_eq_true, Bool.and_eq_true, beq_iff_eq] at h
+    rcases h with h | h
+    · exact hlit h
+    · rcases propsOk_spec h with h | ⟨hlr, x, hx, hreach⟩
+      · exact heq h
+      · exact hrefl hlr x hx hreach
+
 /-! ### non-vacuity
 
-terms: 0 = A, 1 = G(A), 2 = R(A), 3 = B.  Rule 0: `(= x (G y)) (R y) ⇒ (union x y)`.
-Leaves: G(A) = G(A), R(A) = R(A); the rule step derives G(A) = A.  The same steps against the rule
-with one more premise, against a rule with another head, and against the empty program are
-rejected; so is the step with its second premise dropped. -/
+terms: 0 = A, 1 = G(A), 2 = R(A), 3 = B, 4 = the literal 7.  Rule 0: `(= x (G y)) (R y) ⇒ (union x y)`.
+Top-level actions: `(G (A))`, `(R (A))`.  Fiat steps G(A) = G(A), R(A) = R(A); the rule step derives
+G(A) = A.  The same steps against the rule with one more premise, against a rule with another
+head, against the program without the rule and against the program without its top-level facts
+are rejected; so is the step with its second premise dropped. -/
 section NonVacuity
-def exTerms : Array Term := #[⟨0, []⟩, ⟨1, [0]⟩, ⟨2, [0]⟩, ⟨3, []⟩]
+def exTerms : Array Term := #[⟨0, []⟩, ⟨1, [0]⟩, ⟨2, [0]⟩, ⟨3, []⟩, ⟨4, []⟩]
 def exRule : Rule := ⟨[⟨false, .var 0, .app 1 [.var 1]⟩, ⟨true, .app 2 [.var 1], .app 2 [.var 1]⟩], [.union (.var 0) (.var 1)]⟩
 def exRuleMore : Rule := { exRule with body := exRule.body ++ [⟨false, .var 9, .app 3 []⟩] }
 def exRuleHead : Rule := { exRule with head := [.union (.var 0) (.app 3 [])] }
-def exSteps : List Step := [⟨.leaf, 1, 1⟩, ⟨.leaf, 2, 2⟩, ⟨.rule 0 [0, 1] [(0, 1), (1, 0)], 1, 0⟩, ⟨.sym 2, 0, 1⟩]
-example : checkProof [exRule] exTerms exSteps = true := by decide +kernel
-example : checkProof [exRuleMore] exTerms exSteps = false := by decide +kernel
-example : checkProof [exRuleHead] exTerms exSteps = false := by decide +kernel
-example : checkProof [] exTerms exSteps = false := by decide +kernel
-example : checkProof [exRule] exTerms [⟨.leaf, 1, 1⟩, ⟨.leaf, 2, 2⟩, ⟨.rule 0 [0] [(0, 1), (1, 0)], 1, 0⟩] = false := by decide +kernel
+def exFacts : List Act := [.expr (.app 1 [.app 0 []]), .expr (.app 2 [.app 0 []])]
+def exProg (rs : List Rule) : Prog := ⟨rs, exFacts, [4]⟩
+def exSteps : List Step := [⟨.fiat, 1, 1⟩, ⟨.fiat, 2, 2⟩, ⟨.rule 0 [0, 1] [(0, 1), (1, 0)], 1, 0⟩, ⟨.sym 2, 0, 1⟩, ⟨.fiat, 4, 4⟩]
+example : checkProof (exProg [exRule]) exTerms exSteps = true := by decide +kernel
+example : checkProof (exProg [exRuleMore]) exTerms exSteps = false := by decide +kernel
+example : checkProof (exProg [exRuleHead]) exTerms exSteps = false := by decide +kernel
+example : checkProof (exProg []) exTerms exSteps = false := by decide +kernel
+/-- without the top-level facts the Fiat steps are unjustified -/
+example : checkProof ⟨[exRule], [], [4]⟩ exTerms exSteps = false := by decide +kernel
+/-- with only `(R (A))` left, `G(A) = G(A)` is unjustified; `A = A` (a subterm of `(R (A))`) still is justified -/
+example : stepOk ⟨[exRule], [.expr (.app 2 [.app 0 []])], []⟩ exTerms [] ⟨.fiat, 1, 1⟩ = false := by decide +kernel
+example : stepOk ⟨[exRule], [.expr (.app 2 [.app 0 []])], []⟩ exTerms [] ⟨.fiat, 0, 0⟩ = true := by decide +kernel
+example : checkProof (exProg [exRule]) exTerms [⟨.fiat, 1, 1⟩, ⟨.fiat, 2, 2⟩, ⟨.rule 0 [0] [(0, 1), (1, 0)], 1, 0⟩] = false := by decide +kernel
 /-- a refl claim for a subterm of an instantiated head expression is accepted, for any other term it is not -/
-example : stepOk [exRule] exTerms [⟨.leaf, 1, 1⟩, ⟨.leaf, 2, 2⟩] ⟨.rule 0 [0, 1] [(0, 1), (1, 0)], 0, 0⟩ = true := by decide +kernel
-example : stepOk [exRule] exTerms [⟨.leaf, 1, 1⟩, ⟨.leaf, 2, 2⟩] ⟨.rule 0 [0, 1] [(0, 1), (1, 0)], 3, 3⟩ = false := by decide +kernel
+example : stepOk (exProg [exRule]) exTerms [⟨.fiat, 1, 1⟩, ⟨.fiat, 2, 2⟩] ⟨.rule 0 [0, 1] [(0, 1), (1, 0)], 0, 0⟩ = true := by decide +kernel
+example : stepOk (exProg [exRule]) exTerms [⟨.fiat, 1, 1⟩, ⟨.fiat, 2, 2⟩] ⟨.rule 0 [0, 1] [(0, 1), (1, 0)], 3, 3⟩ = false := by decide +kernel
+/-- a global `let` binds a variable that a rule may mention without the step's substitution binding it -/
+example : stepOk ⟨[⟨[⟨true, .app 2 [.var 1], .app 2 [.var 1]⟩], [.union (.var 1) (.var 5)]⟩], [.letv 5 (.app 3 []), .expr (.app 2 [.app 0 []])], []⟩
+    exTerms [⟨.fiat, 2, 2⟩] ⟨.rule 0 [0] [(1, 0)], 0, 3⟩ = true := by decide +kernel
 end NonVacuity
 
 end EgglogVerif.ProofCk
